@@ -8,6 +8,7 @@ namespace photospline{
 template <typename Alloc>
 template <typename Float>
 void splinetable<Alloc>::ndsplineeval_multibasis_core(const int *centers, const typename detail::simd_vector<Float>::type*** localbasis, typename detail::simd_vector<Float>::type* result) const{
+	PHOTOSPLINE_VERIF_CORE();
 #if (defined(__i386__) || defined (__x86_64__)) && defined(__ELF__)
 	/*
 	 * Work around GCC ABI-compliance issue with SSE on x86 by
@@ -81,6 +82,7 @@ namespace{
 template <typename Alloc>
 template <typename Float, unsigned int D>
 void splinetable<Alloc>::ndsplineeval_multibasis_coreD(const int *centers, const typename detail::simd_vector<Float>::type*** localbasis, typename detail::simd_vector<Float>::type* result) const{
+	PHOTOSPLINE_VERIF_CORE();
 #if (defined(__i386__) || defined (__x86_64__)) && defined(__ELF__)
 	/*
 	 * Work around GCC ABI-compliance issue with SSE on x86 by
@@ -151,6 +153,7 @@ void splinetable<Alloc>::ndsplineeval_multibasis_coreD(const int *centers, const
 template <typename Alloc>
 template <typename Float, unsigned int D, unsigned int Order>
 void splinetable<Alloc>::ndsplineeval_multibasis_coreD_FixedOrder(const int *centers, const typename detail::simd_vector<Float>::type*** localbasis, typename detail::simd_vector<Float>::type* result) const{
+	PHOTOSPLINE_VERIF_CORE();
 #if (defined(__i386__) || defined (__x86_64__)) && defined(__ELF__)
 	/*
 	 * Work around GCC ABI-compliance issue with SSE on x86 by
@@ -224,6 +227,7 @@ void splinetable<Alloc>::ndsplineeval_multibasis_coreD_FixedOrder(const int *cen
 template <typename Alloc>
 template<typename Float, unsigned int ... Orders>
 void splinetable<Alloc>::ndsplineeval_multibasis_core_KnownOrder(const int *centers, const typename detail::simd_vector<Float>::type*** localbasis, typename detail::simd_vector<Float>::type* result) const{
+	PHOTOSPLINE_VERIF_CORE();
 #if (defined(__i386__) || defined (__x86_64__)) && defined(__ELF__)
 	/*
 	 * Work around GCC ABI-compliance issue with SSE on x86 by
